@@ -18,6 +18,7 @@ from qce_circuit.structure.intrf_circuit_operation import (
     MultiRelationType,
     ChannelIdentifier,
     ICircuitOperation,
+    invalidate_start_time_memo,
 )
 from qce_circuit.structure.graph_traversal.intrf_graph_structure import (
     IEndpoint,
@@ -211,6 +212,8 @@ class CircuitCompositeOperation(ICircuitCompositeOperation):
     @relation_link.setter
     def relation_link(self, link: IRelationLink[ICircuitOperation]):
         """:sets: Description of relation to other circuit node."""
+        if link is not self.relation:
+            invalidate_start_time_memo()
         self.relation = link
 
     @property
@@ -252,6 +255,7 @@ class CircuitCompositeOperation(ICircuitCompositeOperation):
             graph=self._circuit_graph,
             operation=operation,
         )
+        invalidate_start_time_memo()
         return self
 
     def copy(self, relation_transfer_lookup: Optional[Dict[ICircuitOperation, ICircuitOperation]] = None) -> 'CircuitCompositeOperation':
@@ -318,6 +322,7 @@ class CircuitCompositeOperation(ICircuitCompositeOperation):
                 operation=operation,
             )
         self._circuit_graph = flatten_circuit_graph
+        invalidate_start_time_memo()
         return self
     # endregion
 
